@@ -82,6 +82,10 @@ impl UnitResult {
             self.fold(m(format!("{}|{}|{}|{}|{}", e.kind, e.file, e.line, e.col, e.msg)).as_bytes());
         }
         self.fold(format!("{}|{}", r.eval_ticks, r.lexer_ops).as_bytes());
+        self.bump("jobs_under_simulated_clock", 1);
+        if r.clock_reads > 0 {
+            self.bump("probe.clock_reads_inside_compilation", r.clock_reads);
+        }
     }
     pub fn set_add(&mut self, set: &str, h: u64) {
         self.sets.entry(set.to_string()).or_default().push(h);
